@@ -17,8 +17,10 @@
    peers, the order and number of answers, the dispatcher's arrivals, the
    choices among map elements are arbitrary.  [ev_ok]: that, in every round,
    and every chain event (rollBackToHeight to ANY height >= 0 followed by an
-   append of any length) leaves a chain of distinct blocks shorter than
-   1,000,000.  [linit a conn syn]: the handler starts with block chain / filter
+   append of any length: the new tip may be higher, as high or LOWER) leaves a
+   chain of distinct blocks shorter than 1,000,000 in which every block names
+   its predecessor ([parent] = PrevBlock of a header: a block hash names one
+   chain down to the genesis block [g]).  [linit a conn syn]: the handler starts with block chain / filter
    chain [a], peers [conn], no cached lists. *)
 From stdpp Require Import gmap list.
 From Coq Require Import ZArith Lia.
@@ -30,85 +32,90 @@ Open Scope Z_scope.
 (* ===================== (a), (b): safety of every run ===================== *)
 
 (* For EVERY run of the handler loop - any number of rounds, any chains, any
-   peers and behaviours, growth and reorganisations of any depth between the
-   rounds, peers connecting and leaving - in which p is honest: as long as
-   the ghost flag is clear (the cached checkpoint lists were never used for a
-   chain other than the one they were fetched for: THE freshness condition),
-   p is not banned by any round, and the committed filter chain is exactly
-   the true filter headers of a prefix of the current block chain (what the
-   rounds committed is the honest value; what a reorganisation disconnected
-   is gone). *)
+   peers and behaviours, growth and reorganisations of ANY depth to ANY
+   height (higher, equal, lower) between the rounds, also between the caching
+   of the checkpoint lists and the round that uses them, peers connecting and
+   leaving - in which p is honest: p is not banned by any round, and the
+   committed filter chain is exactly the true filter headers of a prefix of
+   the current block chain (what the rounds committed is the honest value;
+   what a reorganisation disconnected is gone). *)
+Theorem C03_loop_honest_never_banned : forall H fh,
+  (forall a b a' b', H a b = H a' b' -> a = a' /\ b = b') ->
+  forall parent g p c tfilt a conn syn evs,
+  wf_chain (abl a) -> parent_ok parent (abl a) -> head (abl a) = Some g ->
+  committed_true H fh a -> c_genesis c = thd H fh (abl a) 0 ->
+  c_legacy c = false -> c_height_only c = false -> c_cp c = None ->
+  hon_run H p c (linit a conn syn) evs (ev_ok H fh parent p c tfilt) ->
+  let s' := lrun H c (linit a conn syn) evs in
+  ~ In p (l_banned s') /\ committed_true H fh (l_a s').
+Proof.
+  intros H fh Hinj parent g p c tfilt a conn syn evs Hwf Hpo Hhd Hct Hg Hl Ho Hc Hrun s'.
+  destruct (linit_inv H fh parent g p c tfilt a conn syn Hwf Hpo Hhd Hct Hg Hl Hc) as (Hinv & Hf0).
+  destruct (lrun_safe H fh Hinj parent g p c tfilt evs _ Hinv Ho Hf0 Hrun) as (Hinv' & _).
+  split; [exact (li_notbanned _ _ _ _ _ _ _ Hinv')|exact (li_true _ _ _ _ _ _ _ Hinv')].
+Qed.
+Print Assumptions C03_loop_honest_never_banned.
+
+(* The freshness condition the proof needs: cached checkpoint lists are used
+   only for the chain they were fetched for (ghost flag 21 marks a use for
+   another chain).  The re-query test of the code - fetch again when
+   minCheckpointHeight(lists) < lastHeight OR the stop hash the lists were
+   fetched for is not the stop hash of now - establishes it in every run: a
+   hash names one chain. *)
+Theorem C03_loop_lists_never_stale : forall H fh,
+  (forall a b a' b', H a b = H a' b' -> a = a' /\ b = b') ->
+  forall parent g p c tfilt a conn syn evs,
+  wf_chain (abl a) -> parent_ok parent (abl a) -> head (abl a) = Some g ->
+  committed_true H fh a -> c_genesis c = thd H fh (abl a) 0 ->
+  c_legacy c = false -> c_height_only c = false -> c_cp c = None ->
+  hon_run H p c (linit a conn syn) evs (ev_ok H fh parent p c tfilt) ->
+  l_flag (lrun H c (linit a conn syn) evs) = 0.
+Proof.
+  intros H fh Hinj parent g p c tfilt a conn syn evs Hwf Hpo Hhd Hct Hg Hl Ho Hc Hrun.
+  destruct (linit_inv H fh parent g p c tfilt a conn syn Hwf Hpo Hhd Hct Hg Hl Hc) as (Hinv & Hf0).
+  by destruct (lrun_safe H fh Hinj parent g p c tfilt evs _ Hinv Ho Hf0 Hrun) as (_ & Hf).
+Qed.
+Print Assumptions C03_loop_lists_never_stale.
+
+(* Whatever the re-query test (also the test by height alone, the code before
+   the repair F110: [c_height_only c = true]): safety holds for every run in
+   which the flag stays clear. *)
 Theorem C03_loop_safe_unless : forall H fh,
   (forall a b a' b', H a b = H a' b' -> a = a' /\ b = b') ->
-  forall p c tfilt a conn syn evs,
-  wf_chain (abl a) -> committed_true H fh a -> c_genesis c = thd H fh (abl a) 0 ->
+  forall parent g p c tfilt a conn syn evs,
+  wf_chain (abl a) -> parent_ok parent (abl a) -> head (abl a) = Some g ->
+  committed_true H fh a -> c_genesis c = thd H fh (abl a) 0 ->
   c_legacy c = false -> c_cp c = None ->
-  hon_run H p c (linit a conn syn) evs (ev_ok H fh p c tfilt) ->
+  hon_run H p c (linit a conn syn) evs (ev_ok H fh parent p c tfilt) ->
   let s' := lrun H c (linit a conn syn) evs in
   l_flag s' = 0 ->
   ~ In p (l_banned s') /\ committed_true H fh (l_a s').
 Proof.
-  intros H fh Hinj p c tfilt a conn syn evs Hwf Hct Hg Hl Hc Hrun s' Hf.
-  destruct (linit_inv H fh p c a conn syn Hwf Hct Hg Hl Hc) as (Hinv & _ & _).
-  pose proof (lrun_inv H fh Hinj p c tfilt evs _ Hinv Hrun Hf) as Hinv'.
-  split; [exact (li_notbanned _ _ _ _ _ Hinv')|exact (li_true _ _ _ _ _ Hinv')].
+  intros H fh Hinj parent g p c tfilt a conn syn evs Hwf Hpo Hhd Hct Hg Hl Hc Hrun s' Hf.
+  destruct (linit_inv H fh parent g p c tfilt a conn syn Hwf Hpo Hhd Hct Hg Hl Hc) as (Hinv & _).
+  pose proof (lrun_inv H fh Hinj parent g p c tfilt evs _ Hinv Hrun Hf) as Hinv'.
+  split; [exact (li_notbanned _ _ _ _ _ _ _ Hinv')|exact (li_true _ _ _ _ _ _ _ Hinv')].
 Qed.
 Print Assumptions C03_loop_safe_unless.
 
-(* The code's re-query condition, minCheckpointHeight(cached lists) <
-   lastHeight, establishes the freshness condition whenever every chain event
-   raises the height of the tip (all blocks carry the same work: regtest,
-   simnet, mainnet between retargets): the honest peer's list ends at the last
-   multiple of 1000 below the tip it was fetched for, so the lists survive a
-   round only if the tip has not moved - the flag stays clear, for every run. *)
-Theorem C03_loop_requery_keeps_lists_fresh : forall H fh,
-  (forall a b a' b', H a b = H a' b' -> a = a' /\ b = b') ->
-  forall p c tfilt a conn syn evs,
-  wf_chain (abl a) -> committed_true H fh a -> c_genesis c = thd H fh (abl a) 0 ->
-  c_legacy c = false -> c_cp c = None ->
-  hon_run H p c (linit a conn syn) evs (fun s e => ev_ok H fh p c tfilt s e /\ raises s e) ->
-  l_flag (lrun H c (linit a conn syn) evs) = 0.
-Proof.
-  intros H fh Hinj p c tfilt a conn syn evs Hwf Hct Hg Hl Hc Hrun.
-  destruct (linit_inv H fh p c a conn syn Hwf Hct Hg Hl Hc) as (Hinv & Hfr & Hf0).
-  by destruct (lrun_fresh H fh Hinj p c tfilt evs _ Hinv Hfr Hf0 Hrun) as (_ & _ & Hf).
-Qed.
-Print Assumptions C03_loop_requery_keeps_lists_fresh.
-
-(* ... hence, (a): an honest peer is never banned, also when reorganisations
-   happen between the caching of the checkpoint lists and the round that uses
-   them, and (b): everything committed is the honest value. *)
-Theorem C03_loop_honest_never_banned : forall H fh,
-  (forall a b a' b', H a b = H a' b' -> a = a' /\ b = b') ->
-  forall p c tfilt a conn syn evs,
-  wf_chain (abl a) -> committed_true H fh a -> c_genesis c = thd H fh (abl a) 0 ->
-  c_legacy c = false -> c_cp c = None ->
-  hon_run H p c (linit a conn syn) evs (fun s e => ev_ok H fh p c tfilt s e /\ raises s e) ->
-  let s' := lrun H c (linit a conn syn) evs in
-  ~ In p (l_banned s') /\ committed_true H fh (l_a s').
-Proof.
-  intros H fh Hinj p c tfilt a conn syn evs Hwf Hct Hg Hl Hc Hrun s'.
-  destruct (linit_inv H fh p c a conn syn Hwf Hct Hg Hl Hc) as (Hinv & Hfr & Hf0).
-  destruct (lrun_fresh H fh Hinj p c tfilt evs _ Hinv Hfr Hf0 Hrun) as (Hinv' & _ & _).
-  split; [exact (li_notbanned _ _ _ _ _ Hinv')|exact (li_true _ _ _ _ _ Hinv')].
-Qed.
-Print Assumptions C03_loop_honest_never_banned.
-
-(* F110 (open): without that hypothesis the property is REFUTED on the
-   unchanged code.  Two honest peers; the first checkpointed fetch times out;
-   blocks 999-1000 are replaced by a branch that ends at the same height
-   1000; minCheckpointHeight = 1000 is not below 1000, the lists of the old
-   branch are used again (flag 21, no getcfcheckpt sent) and both honest peers
-   are banned, nothing is committed.  With a branch one block longer the
-   lists are fetched again and the interval is committed. *)
+(* Why the stop hash is needed (F110, repaired): with the test by height
+   alone the property is REFUTED.  Two honest peers; the first checkpointed
+   fetch times out; blocks 999-1000 are replaced by a branch that ends at the
+   same height 1000; minCheckpointHeight = 1000 is not below 1000, the lists
+   of the old branch are used again (flag 21, no getcfcheckpt sent) and both
+   honest peers are banned, nothing is committed.  The repaired code sends
+   getcfcheckpt for the new tip 900002, bans nobody and commits the interval;
+   the height test alone is enough when the new branch is longer. *)
 Theorem C03_loop_stale_lists_refuted :
   abl (chain_event W.a0 998 [900001; 900002]) = W.chainB /\
-  W.summary (lrun W.wH (W.cfg false) (linit W.a0 [1; 2] false) W.evs_f110) = (21, [1; 2], 0, 1000) /\
-  louts W.wH (W.cfg false) (linit W.a0 [1; 2] false) W.evs_f110 = [(3, Some 1100, []); (3, None, [1; 2])] /\
-  W.summary (lrun W.wH (W.cfg false) (linit W.a0 [1; 2] false) W.evs_f110_longer) = (0, [], 1000, 1001).
+  W.summary (lrun W.wH (W.cfg true) (linit W.a0 [1; 2] false) W.evs_f110) = (21, [1; 2], 0, 1000) /\
+  louts W.wH (W.cfg true) (linit W.a0 [1; 2] false) W.evs_f110 = [(3, Some 1100, []); (3, None, [1; 2])] /\
+  W.summary (lrun W.wH (W.cfg false) (linit W.a0 [1; 2] false) W.evs_f110) = (0, [], 1000, 1000) /\
+  louts W.wH (W.cfg false) (linit W.a0 [1; 2] false) W.evs_f110 = [(3, Some 1100, []); (3, Some 900002, [])] /\
+  W.summary (lrun W.wH (W.cfg true) (linit W.a0 [1; 2] false) W.evs_f110_longer) = (0, [], 1000, 1001).
 Proof.
   exact (conj (proj1 W.f110_run) (conj (proj1 (proj2 W.f110_run)) (conj (proj2 (proj2 W.f110_run))
-          (proj2 W.f110_longer_run)))).
+          (conj (proj1 W.f110_fixed_run) (conj (proj2 W.f110_fixed_run) (proj2 W.f110_longer_run)))))).
 Qed.
 Print Assumptions C03_loop_stale_lists_refuted.
 
@@ -123,8 +130,8 @@ Print Assumptions C03_loop_stale_lists_refuted.
    the previous filter header (that peer is not identified by the code). *)
 Theorem C03_loop_round_progress : forall H fh,
   (forall a b a' b', H a b = H a' b' -> a = a' /\ b = b') ->
-  forall p c tfilt s d s' code asked bans,
-  linv H fh p c s -> hon_round H fh p c tfilt s d -> avail_hdrs H fh c s d -> eff_phase s <> PTip ->
+  forall parent g p c tfilt s d s' code asked bans,
+  linv H fh parent g p c s -> hon_round H fh p c tfilt s d -> avail_hdrs H fh c s d -> eff_phase s <> PTip ->
   round H c s d = (s', (code, asked, bans)) -> l_flag s' = 0 ->
   code = 0 \/ code = 3 \/ code = 6 \/
   (code = 2 /\ l_cache s' = [] /\ ~ In p bans /\
@@ -140,9 +147,9 @@ Print Assumptions C03_loop_round_progress.
    attempts: the livelock of F112 is gone. *)
 Theorem C03_loop_failed_attempts_bounded : forall H fh,
   (forall a b a' b', H a b = H a' b' -> a = a' /\ b = b') ->
-  forall p c tfilt evs s,
-  linv H fh p c s ->
-  hon_run H p c s evs (fun s e => ev_ok H fh p c tfilt s e /\
+  forall parent g p c tfilt evs s,
+  linv H fh parent g p c s ->
+  hon_run H p c s evs (fun s e => ev_ok H fh parent p c tfilt s e /\
                          match e with ERound d => avail_hdrs H fh c s d | _ => True end) ->
   l_flag (lrun H c s evs) = 0 ->
   (nfail (louts H c s evs) + phi (lrun H c s evs) <=
@@ -159,8 +166,8 @@ Print Assumptions C03_loop_failed_attempts_bounded.
    code 3.) *)
 Theorem C03_loop_success_commits : forall H fh,
   (forall a b a' b', H a b = H a' b' -> a = a' /\ b = b') -> (forall a b, H a b <> 0) ->
-  forall p c tfilt s d s' asked bans,
-  linv H fh p c s -> hon_round H fh p c tfilt s d -> eff_phase s <> PTip ->
+  forall parent g p c tfilt s d s' asked bans,
+  linv H fh parent g p c s -> hon_round H fh p c tfilt s d -> eff_phase s <> PTip ->
   round H c s d = (s', (3, asked, bans)) -> l_flag s' = 0 -> INTERVAL <= tipH s ->
   (forall x l, snd (resolve_of H c s (tipH s) (tipX s) d) = Some (x :: l) ->
                flen2 (l_a s) / INTERVAL < zlen (x :: l)) ->
@@ -169,7 +176,9 @@ Theorem C03_loop_success_commits : forall H fh,
 Proof. exact round_commits. Qed.
 Print Assumptions C03_loop_success_commits.
 
-(* F111, F112 (repaired; no theorem kept about the old code): the model has
+(* The flag hypothesis [l_flag s' = 0] of the three progress theorems holds
+   in every run of the repaired code (C03_loop_lists_never_stale).
+   F111, F112 (repaired; no theorem kept about the old code): the model has
    the code before the repair as [c_legacy := true] (the retry loop keeps the
    tip it read first - PRetry - and the cached lists); the corpus histories
    corpus/C03/loop-f111-*.json and loop-f112-*.json, replayed with
@@ -184,7 +193,8 @@ Print Assumptions C03_loop_success_commits.
    freedom of H is the usual hypothesis about dsha256.) *)
 Example C03_loop_nonvacuous :
   (wf_chain (abl X.aS) /\ committed_true W.wH W.wfh X.aS /\ c_genesis X.cS = thd W.wH W.wfh (abl X.aS) 0) /\
-  hon_run W.wH 1 X.cS X.sS [ERound X.dS] (ev_ok W.wH W.wfh 1 X.cS (fun _ => 0)) /\
+  (parent_ok X.parS (abl X.aS) /\ head (abl X.aS) = Some 100) /\
+  hon_run W.wH 1 X.cS X.sS [ERound X.dS] (ev_ok W.wH W.wfh X.parS 1 X.cS (fun _ => 0)) /\
   W.summary (lrun W.wH X.cS X.sS [ERound X.dS]) = (0, [], 1000, 1001).
-Proof. exact (conj X.init_S (conj (conj (conj I X.hon_S) I) X.run_S)). Qed.
+Proof. exact (conj X.init_S (conj X.parent_S (conj (conj (conj I X.hon_S) I) X.run_S))). Qed.
 Print Assumptions C03_loop_nonvacuous.
